@@ -424,6 +424,44 @@ def shrink(ctx, case, want_code, budget=40, want_tag=None):
 
 
 # ----------------------------------------------------------------------------
+def crash_violation(binp, g, pid, outdir, o2, seed, tier):
+    """the test process died while one or several cases were running (markers written by vCaseStart / vCaseStartKey):
+    returns the violation naming the concrete failing input, or None when this was not a crash of the code under test"""
+    crash_re = r"^(panic:|fatal error:|SIGSEGV|goroutine \d+ \[running\])"
+    cur = os.path.join(outdir, "current_case.json")
+    marks = [cur] if os.path.exists(cur) else sorted(glob.glob(os.path.join(outdir, "current_case_*.json")))
+    if not marks or not re.search(crash_re, o2, flags=re.M):
+        return None
+    cands = []
+    for mk in marks:
+        try:
+            cands.append(json.load(open(mk)).get("input"))
+        except ValueError:
+            pass
+    cin, o3 = (cands[0] if len(cands) == 1 else None), o2
+    if len(cands) > 1:
+        # several cases were in flight (concurrent harness): re-run each alone; the one that crashes is it
+        for cand in cands:
+            inp = os.path.join(BUILD, "%s_crash_in.json" % pid)
+            json.dump([cand], open(inp, "w"))
+            rc3, o3 = run_harness(binp, g, pid, outdir + "_crash", seed, 1, 1, cases_in=inp, tier=tier,
+                                  timeout=g.get("timeout_" + tier, 1500), extra_env={"VERIF_FILEPREFIX": pid + "_crash"})
+            shutil.rmtree(outdir + "_crash", ignore_errors=True)
+            if rc3 != 0 and re.search(crash_re, o3, flags=re.M):
+                cin = cand
+                break
+        else:
+            o3 = o2
+    m2 = re.search(r"^(panic:.*|fatal error:.*)$", o3, flags=re.M)
+    obj = {"case": {"input": cin}, "harness": g["test"], "signature": "process-crash",
+           "observed": (m2.group(1) if m2 else "crash")[:300], "output_tail": o3[-2500:],
+           "meaning": "the code under test crashed the process (panic outside the calling goroutine or fatal runtime error) while this case was running"}
+    if cin is None and cands:
+        obj["in_flight_cases"] = cands[:8]
+        obj["note"] = "none of the cases in flight crashed when run alone: the crash needs their interleaving"
+    return ("counterexample", "process-crash", obj, cin is None)
+
+
 def write_evidence(pid, ev):
     # evidence/ describes runs against /repo itself; a run against another tree (VERIF_REPO: mutation and seeded-change
     # trials) leaves it alone and writes under .build/
@@ -598,7 +636,12 @@ def run_check(pid, tier, seed, replay):
                 rc2, o2 = run_harness(binp, g, pid, codir, seed, len(allc), 1, cases_in=inp, tier=tier,
                                       extra_env={"VERIF_FILEPREFIX": pid + "_corpus", "VERIF_IDBASE": "1000000"})
                 if rc2 != 0:
-                    harness_err = "harness failed on corpus:\n" + o2[-3000:]
+                    cv = crash_violation(binp, g, pid, codir, o2, seed, tier)
+                    if cv:
+                        violations.append(cv)
+                        harness_crashed = True
+                    else:
+                        harness_err = "harness failed on corpus:\n" + o2[-3000:]
                     break
                 sc = load_sidecar(codir)
                 for k, v in sc.items():
@@ -613,18 +656,9 @@ def run_check(pid, tier, seed, replay):
         rc2, o2 = run_harness(binp, g, pid, outdir, seed, n, shards, cases_in=cases_in, tier=tier,
                               timeout=g.get("timeout_" + tier, 1500))
         if rc2 != 0:
-            cur = os.path.join(outdir, "current_case.json")
-            if os.path.exists(cur) and re.search(r"^(panic:|fatal error:|SIGSEGV|goroutine \d+ \[running\])", o2, flags=re.M):
-                # the test process died while a case was running: that case is the concrete failing input
-                try:
-                    cin = json.load(open(cur)).get("input")
-                except ValueError:
-                    cin = None
-                m2 = re.search(r"^(panic:.*|fatal error:.*)$", o2, flags=re.M)
-                violations.append(("counterexample", "process-crash",
-                                   {"case": {"input": cin}, "harness": g["test"], "signature": "process-crash",
-                                    "observed": (m2.group(1) if m2 else "crash")[:300], "output_tail": o2[-2500:],
-                                    "meaning": "the code under test crashed the process (panic outside the calling goroutine or fatal runtime error) while this case was running"}, cin is None))
+            cv = crash_violation(binp, g, pid, outdir, o2, seed, tier)
+            if cv:
+                violations.append(cv)
                 harness_crashed = True
                 break
             harness_err = "harness %s failed (rc=%d):\n%s" % (g["test"], rc2, o2[-4000:])
@@ -660,7 +694,11 @@ def run_check(pid, tier, seed, replay):
         for cid_, c in side_all.items():
             print(json.dumps({"case": c.get("input"), "observed": c.get("obs"),
                               "fails": [(code, tg) for (_, i, code, tg) in fails if i == cid_]}, indent=1))
-        return 1 if fails else 0
+        # a case that cannot go through Coq (panic, crash of the process) reproduces as a direct violation
+        direct = [v[2] for v in violations if v[1] in ("direct", "process-crash")]
+        for d in direct:
+            print(json.dumps({"direct_violation": d}, indent=1))
+        return 1 if fails or direct else 0
 
     if FALLBACK_USED:
         msg = "primary check module %s did not compile; %d case file(s) evaluated with %s (property part only): %s" % (
